@@ -69,6 +69,7 @@ class Prop(object):
     case_timeout = 30
     object_histories = True        # see drive.HISTORY
     reparse_histories = True
+    struct_inputs = True           # see drive.STRUCT
 
     def gen(self, rng, ctx):
         raise NotImplementedError
@@ -92,7 +93,7 @@ class Prop(object):
         if not self.object_histories:
             return self.judge(case)
         drive.begin_case(random.Random(zlib.crc32(repr(sorted(case.items(), key=lambda kv: kv[0])).encode())),
-                         reparse=self.reparse_histories)
+                         reparse=self.reparse_histories, struct=self.struct_inputs)
         try:
             v = self.judge(case)
             if v is not None and v.viol and drive.LAST_HISTORY:
